@@ -485,12 +485,14 @@ class JordanCurve:
                 i += 1
         shift = 0
         for ind in range(len(self.segments)):
-            new_nodes = tuple(
-                sorted(set(node for index, node in pairs if index == ind))
-            )
+            new_nodes = []
+            for node in sorted(node for index, node in pairs if index == ind):
+                # Nodes closer than the tolerance give only one junction
+                if not new_nodes or node - new_nodes[-1] >= 1e-6:
+                    new_nodes.append(node)
             if len(new_nodes) == 0:
                 continue
-            self.__split_segment(ind + shift, new_nodes)
+            self.__split_segment(ind + shift, tuple(new_nodes))
             shift += len(new_nodes)
 
     def points(self, subnpts: Optional[int] = None) -> Tuple[Tuple[float]]:
